@@ -4,3 +4,5 @@ open PhQVerif Generated
 #print axioms PhQVerif.Props.C16.direction_cast_then_normalise
 #eval s!"COUNT C16.cast_entries {(quantityEntries.filter (fun e => e.kind == .castCtor || e.kind == .castAssign)).length}"
 #eval s!"COUNT C16.direction_cast_ctor_rows {DirCast.rows.length}"
+#print axioms PhQVerif.Props.C16.widen_narrow_core
+#print axioms PhQVerif.Props.C16.widen_then_narrow_is_identity
